@@ -83,6 +83,14 @@ def r14_1(ctx, R):
             ctx.ob("R14.1", d, "licensed-self-wake@%s" % _site_label(d, bb), licensed is not None and is_task, d.loc(bb),
                    "licence: %s; receiver is the caller's task waker: %s" % (licensed, is_task))
     ctx.floor("R14.1", "task-wake-sites", n, 2)
+    for b in ctx.facts.fn_bodies():
+        allw = direct_sites(b, RE_WAKE)
+        task = {x[0] for x in R.task_wake_sites(b)} if allw else set()
+        for bb, t, fn in allw:
+            if bb not in task:
+                ctx.ob("R14.1", b, "wake-of-a-non-task-waker@%s" % _site_label(b, bb), False, b.loc(bb),
+                       "the crate invokes a waker that is not its caller's task waker (a child slot waker notifies the task): %s" %
+                       expr_str(strip_refs(ctx.flow(b).operand_expr(t["args"][0]))))
     # uses of Context::waker
     m = 0
     for b in ctx.facts.fn_bodies():
